@@ -14,7 +14,7 @@ from checks.surf import write_mc
 
 PID = "X06"
 MAX_CONFIRM = 6
-STAT_KEYS = ["ext", "regular", "degenerate", "reject", "refused", "closedpath", "planes", "radii", "zerorings",
+STAT_KEYS = ["ext", "regular", "degenerate", "reject", "refused", "closedpath", "planes", "radii", "zerorings", "outward",
              "tris", "rep", "placed", "copies", "reprefused"]
 
 AXES = [(1, 0, 0), (-1, 0, 0), (0, 1, 0), (0, -1, 0), (0, 0, 1), (0, 0, -1)]
@@ -293,6 +293,10 @@ def corruptions(raw, rejected):
         n = 2 * a["case"]["sides"]
         a["tris"] = a["tris"][:-n] + a["tris"][:n]          # the closing strip replaced by a copy of the first
         out.append((a, "X06.Closed"))
+    a = first(lambda o: tube(o) and not o["case"]["close"] and path_kind(o["case"]) == "straight")
+    if a:
+        a["tris"] = [[t[0], t[2], t[1]] for t in a["tris"]]   # the whole tube inside out (still consistent)
+        out.append((a, "X06.Outward"))
     a = first(lambda o: o["k"] == "ext" and o["case"]["gen"] == "shape" and len(o["case"]["path"]) >= 3 and o["tris"] and reg(o))
     if a:
         m = len(a["case"]["stencil"])
@@ -358,7 +362,7 @@ def run(ctx):
     next_ = sum(1 for c in cases if c["kind"] == "ext")
     if stats["ext"] != next_ or stats["rep"] != len(cases) - next_:
         raise core.Infra("judge counted %s for %d ext + %d rep cases" % (stats, next_, len(cases) - next_))
-    need = ["regular", "degenerate", "reject", "refused", "closedpath", "planes", "radii", "zerorings", "tris",
+    need = ["regular", "degenerate", "reject", "refused", "closedpath", "planes", "radii", "zerorings", "outward", "tris",
             "placed", "copies", "reprefused"]
     if any(stats[k] == 0 for k in need):
         raise core.Infra("vacuous run: %s" % stats)
